@@ -4,65 +4,72 @@
 
 package phase4
 
+// Clause labels "[name|P1,P2]" restrict a clause to the views (properties) P1, P2: when property P is checked, only
+// untagged clauses and clauses tagged P are assumed and checked, so a change that breaks only the centring identity
+// (C16) does not raise the no-overlap check (C04), and the other way round.
 //@ func execVerticalAlign
 //@   requires g != nil && bandsDistinct(g) && sizesNonNeg(g) && params.NodeSpacing >= 0.0
 //@   modifies Node.X, Layer.W, Layer.H
-//@   ensures[spacing] forall b int, k int :: 0 <= b && b < len(g.Layers) && 0 <= k && k < len(g.Layers[b].Nodes) - 1 ==>
+//@   ensures[spacing|C16] forall b int, k int :: 0 <= b && b < len(g.Layers) && 0 <= k && k < len(g.Layers[b].Nodes) - 1 ==>
 //@       g.Layers[b].Nodes[k+1].X == g.Layers[b].Nodes[k].X + g.Layers[b].Nodes[k].W + params.NodeSpacing
-//@   ensures[width] forall b int :: 0 <= b && b < len(g.Layers) ==> g.Layers[b].W == rowW(g.Layers[b], params.NodeSpacing)
-//@   ensures[height] heightsOK(g) && bandHeightsNonNeg(g)
-//@   ensures[nonneg] xNonNeg(g)
-//@   ensures[sep] sepOK(g, params.NodeSpacing)
-//@   ensures[midpoints] forall b int, c int :: 0 <= b && b < len(g.Layers) && 0 <= c && c < len(g.Layers)
+//@   ensures[width|C16] forall b int :: 0 <= b && b < len(g.Layers) ==> g.Layers[b].W == rowW(g.Layers[b], params.NodeSpacing)
+//@   ensures[height|C03,C04,C16] heightsOK(g) && bandHeightsNonNeg(g)
+//@   ensures[nonneg|C04,C16] xNonNeg(g)
+//@   ensures[sep|C04,C16,C12] sepOK(g, params.NodeSpacing)
+//@   ensures[midpoints|C16] forall b int, c int :: 0 <= b && b < len(g.Layers) && 0 <= c && c < len(g.Layers)
 //@       && len(g.Layers[b].Nodes) > 0 && len(g.Layers[c].Nodes) > 0 ==>
 //@       g.Layers[b].Nodes[0].X + rowW(g.Layers[b], params.NodeSpacing) / 2.0 == g.Layers[c].Nodes[0].X + rowW(g.Layers[c], params.NodeSpacing) / 2.0
-//@   ensures[leftmost] (exists b int :: 0 <= b && b < len(g.Layers) && len(g.Layers[b].Nodes) > 0) ==>
+//@   ensures[leftmost|C16] (exists b int :: 0 <= b && b < len(g.Layers) && len(g.Layers[b].Nodes) > 0) ==>
 //@       (exists b int :: 0 <= b && b < len(g.Layers) && len(g.Layers[b].Nodes) > 0 && g.Layers[b].Nodes[0].X == 0.0)
 //@   loop range(g.Layers)#1 index a
-//@     invariant forall b int :: 0 <= b && b < a ==> g.Layers[b].W == rowW(g.Layers[b], params.NodeSpacing) && g.Layers[b].W >= 0.0 && maxW >= g.Layers[b].W
-//@     invariant forall b int, k int :: 0 <= b && b < a && 0 <= k && k < len(g.Layers[b].Nodes) ==> g.Layers[b].H >= g.Layers[b].Nodes[k].H
-//@     invariant maxW >= 0.0
-//@     invariant forall b int :: 0 <= b && b < a ==> g.Layers[b].H >= 0.0
-//@     invariant maxW == 0.0 || (exists b int :: 0 <= b && b < a && g.Layers[b].W == maxW)
+//@     invariant[|C16] forall b int :: 0 <= b && b < a ==> g.Layers[b].W == rowW(g.Layers[b], params.NodeSpacing) && g.Layers[b].W >= 0.0
+//@     invariant[|C04,C16] forall b int :: 0 <= b && b < a ==> maxW >= g.Layers[b].W
+//@     invariant[|C03,C04,C16] forall b int, k int :: 0 <= b && b < a && 0 <= k && k < len(g.Layers[b].Nodes) ==> g.Layers[b].H >= g.Layers[b].Nodes[k].H
+//@     invariant[|C04,C16] maxW >= 0.0
+//@     invariant[|C03,C04,C16] forall b int :: 0 <= b && b < a ==> g.Layers[b].H >= 0.0
+//@     invariant[|C16] maxW == 0.0 || (exists b int :: 0 <= b && b < a && g.Layers[b].W == maxW)
 //@   loop range(layer.Nodes)#1 index i
-//@     invariant layer.W == rowPre(layer, i, params.NodeSpacing) - ((i > 0 && i == len(layer.Nodes)) ? params.NodeSpacing : 0.0)
-//@     invariant layer.W >= 0.0 && layer.H >= 0.0
-//@     invariant forall k int :: 0 <= k && k < i ==> layer.H >= layer.Nodes[k].H
+//@     invariant[|C16] layer.W == rowPre(layer, i, params.NodeSpacing) - ((i > 0 && i == len(layer.Nodes)) ? params.NodeSpacing : 0.0)
+//@     invariant[|C16] layer.W >= 0.0
+//@     invariant[|C03,C04,C16] layer.H >= 0.0
+//@     invariant[|C03,C04,C16] forall k int :: 0 <= k && k < i ==> layer.H >= layer.Nodes[k].H
 //@     invariant forall l *Layer :: l != layer ==> l.W == loopold(l.W) && l.H == loopold(l.H)
 //@   loop range(g.Layers)#2 index c
-//@     invariant forall b int, k int :: 0 <= b && b < c && 0 <= k && k < len(g.Layers[b].Nodes) ==>
+//@     invariant[|C16] forall b int, k int :: 0 <= b && b < c && 0 <= k && k < len(g.Layers[b].Nodes) ==>
 //@       g.Layers[b].Nodes[k].X == (maxW - g.Layers[b].W) / 2.0 + rowPre(g.Layers[b], k, params.NodeSpacing)
-//@     invariant forall b int, k int :: 0 <= b && b < c && 0 <= k && k < len(g.Layers[b].Nodes) ==> g.Layers[b].Nodes[k].X >= 0.0
-//@     invariant forall b int, i int, j int :: 0 <= b && b < c && 0 <= i && i < j && j < len(g.Layers[b].Nodes) ==>
+//@     invariant[|C04,C16] forall b int, k int :: 0 <= b && b < c && 0 <= k && k < len(g.Layers[b].Nodes) ==> g.Layers[b].Nodes[k].X >= 0.0
+//@     invariant[|C04,C16,C12] forall b int, i int, j int :: 0 <= b && b < c && 0 <= i && i < j && j < len(g.Layers[b].Nodes) ==>
 //@       g.Layers[b].Nodes[i].X + g.Layers[b].Nodes[i].W + params.NodeSpacing <= g.Layers[b].Nodes[j].X
 //@   loop range(layer.Nodes)#2 index d
-//@     invariant forall k int :: 0 <= k && k < d ==> layer.Nodes[k].X + layer.Nodes[k].W + params.NodeSpacing <= pos
-//@     invariant forall i int, j int :: 0 <= i && i < j && j < d ==> layer.Nodes[i].X + layer.Nodes[i].W + params.NodeSpacing <= layer.Nodes[j].X
-//@     invariant forall b int, i int, j int :: 0 <= b && b < c && 0 <= i && i < j && j < len(g.Layers[b].Nodes) ==>
+//@     invariant[|C16] pos == (maxW - layer.W) / 2.0 + rowPre(layer, d, params.NodeSpacing)
+//@     invariant[|C04,C16] pos >= 0.0
+//@     invariant[|C16] forall k int :: 0 <= k && k < d ==> layer.Nodes[k].X == (maxW - layer.W) / 2.0 + rowPre(layer, k, params.NodeSpacing)
+//@     invariant[|C04,C16] forall k int :: 0 <= k && k < d ==> layer.Nodes[k].X >= 0.0
+//@     invariant[|C16] forall b int, k int :: 0 <= b && b < c && 0 <= k && k < len(g.Layers[b].Nodes) ==>
+//@       g.Layers[b].Nodes[k].X == (maxW - g.Layers[b].W) / 2.0 + rowPre(g.Layers[b], k, params.NodeSpacing)
+//@     invariant[|C04,C16] forall b int, k int :: 0 <= b && b < c && 0 <= k && k < len(g.Layers[b].Nodes) ==> g.Layers[b].Nodes[k].X >= 0.0
+//@     invariant[|C04,C16,C12] forall k int :: 0 <= k && k < d ==> layer.Nodes[k].X + layer.Nodes[k].W + params.NodeSpacing <= pos
+//@     invariant[|C04,C16,C12] forall i int, j int :: 0 <= i && i < j && j < d ==> layer.Nodes[i].X + layer.Nodes[i].W + params.NodeSpacing <= layer.Nodes[j].X
+//@     invariant[|C04,C16,C12] forall b int, i int, j int :: 0 <= b && b < c && 0 <= i && i < j && j < len(g.Layers[b].Nodes) ==>
 //@       g.Layers[b].Nodes[i].X + g.Layers[b].Nodes[i].W + params.NodeSpacing <= g.Layers[b].Nodes[j].X
-//@     invariant pos == (maxW - layer.W) / 2.0 + rowPre(layer, d, params.NodeSpacing)
-//@     invariant pos >= 0.0
-//@     invariant forall k int :: 0 <= k && k < d ==> layer.Nodes[k].X == (maxW - layer.W) / 2.0 + rowPre(layer, k, params.NodeSpacing) && layer.Nodes[k].X >= 0.0
-//@     invariant forall b int, k int :: 0 <= b && b < c && 0 <= k && k < len(g.Layers[b].Nodes) ==>
-//@       g.Layers[b].Nodes[k].X == (maxW - g.Layers[b].W) / 2.0 + rowPre(g.Layers[b], k, params.NodeSpacing) && g.Layers[b].Nodes[k].X >= 0.0
 
 //@ func execPackRight
 //@   requires g != nil && bandsDistinct(g) && sizesNonNeg(g) && params.NodeSpacing >= 0.0 && bandHeightsNonNeg(g)
 //@   modifies Node.X, Layer.H
-//@   ensures[spacing] forall b int, k int :: 0 <= b && b < len(g.Layers) && 0 <= k && k < len(g.Layers[b].Nodes) - 1 ==>
+//@   ensures[spacing|C16] forall b int, k int :: 0 <= b && b < len(g.Layers) && 0 <= k && k < len(g.Layers[b].Nodes) - 1 ==>
 //@       g.Layers[b].Nodes[k+1].X == g.Layers[b].Nodes[k].X + g.Layers[b].Nodes[k].W + params.NodeSpacing
-//@   ensures[extent] forall b int :: 0 <= b && b < len(g.Layers) && len(g.Layers[b].Nodes) > 0 ==>
+//@   ensures[extent|C16] forall b int :: 0 <= b && b < len(g.Layers) && len(g.Layers[b].Nodes) > 0 ==>
 //@       g.Layers[b].Nodes[len(g.Layers[b].Nodes)-1].X + g.Layers[b].Nodes[len(g.Layers[b].Nodes)-1].W - g.Layers[b].Nodes[0].X
 //@         == rowSuf(g.Layers[b], 0, params.NodeSpacing) - params.NodeSpacing
-//@   ensures[rightends] forall b int, c int :: 0 <= b && b < len(g.Layers) && 0 <= c && c < len(g.Layers)
+//@   ensures[rightends|C16] forall b int, c int :: 0 <= b && b < len(g.Layers) && 0 <= c && c < len(g.Layers)
 //@       && len(g.Layers[b].Nodes) > 0 && len(g.Layers[c].Nodes) > 0 ==>
 //@       g.Layers[b].Nodes[len(g.Layers[b].Nodes)-1].X + g.Layers[b].Nodes[len(g.Layers[b].Nodes)-1].W
 //@         == g.Layers[c].Nodes[len(g.Layers[c].Nodes)-1].X + g.Layers[c].Nodes[len(g.Layers[c].Nodes)-1].W
-//@   ensures[nonneg] xNonNeg(g)
-//@   ensures[leftmost] (exists b int :: 0 <= b && b < len(g.Layers) && len(g.Layers[b].Nodes) > 0) ==>
+//@   ensures[nonneg|C04,C16] xNonNeg(g)
+//@   ensures[leftmost|C16] (exists b int :: 0 <= b && b < len(g.Layers) && len(g.Layers[b].Nodes) > 0) ==>
 //@       (exists b int :: 0 <= b && b < len(g.Layers) && len(g.Layers[b].Nodes) > 0 && g.Layers[b].Nodes[0].X == 0.0)
-//@   ensures[sep] sepOK(g, params.NodeSpacing)
-//@   ensures[height] heightsOK(g) && bandHeightsNonNeg(g)
+//@   ensures[sep|C04,C16,C12] sepOK(g, params.NodeSpacing)
+//@   ensures[height|C03,C04,C16] heightsOK(g) && bandHeightsNonNeg(g)
 //@   loop range(g.Layers)#1 index a
 //@     invariant forall b int, k int :: 0 <= b && b < a && 0 <= k && k < len(g.Layers[b].Nodes) ==>
 //@       g.Layers[b].Nodes[k].X == 0.0 - rowSuf(g.Layers[b], k, params.NodeSpacing) && g.Layers[b].Nodes[k].X >= leftBound
